@@ -470,6 +470,11 @@ def OK.dis (delay : Bool) (epoch : Nat) : OK → OK
   | .unknown e => .unknown e
   | .any => .any
 
+/-- a call may or may not have dismissed the key -/
+def OK.weaken : OK → OK
+  | .absent => .absent
+  | _ => .any
+
 structure M6o where
   delay : Bool := false
   /-- whether a context is set, when known -/
@@ -593,14 +598,10 @@ def M6o.ret (m : M6o) : Op → Res → Option M6o
     match m.refKey[r]? with
     | some (some k) =>
       if m.otherRef r k then some m
-      else some { m with st := updF m.st k (match m.st k with
-                    | .absent => .absent
-                    | _ => .any) }
+      else some { m with st := updF m.st k (m.st k).weaken }
     | _ =>
       -- a reference the monitor does not know (taken while calls overlapped): any key may be affected
-      some { m with st := fun k => match m.st k with
-                      | .absent => .absent
-                      | _ => .any }
+      some { m with st := fun k => (m.st k).weaken }
   | _, _ => none
 
 def monC06o : ObsMonitor Obs M6o where
